@@ -29,6 +29,8 @@ func init() {
 			{ID: "C10.R8", Floor: 3, Run: cacheNeverRecycles, Text: "filter ids are never recycled: no method of Cache calls intPool.Recycle (a CachedFilter handle has no generation, so a stale handle must stay invalid)"},
 			{ID: "C10.R9", Floor: 20, Run: flagArgsNotComputed, Text: "option flags are not computed from values: at every call of an internal function with an (ID, bool) parameter pair the bool argument is a constant, a forwarded bool parameter, a stored flag or a presence test of a variadic argument - never derived from the value (the zero ID / zero entity are valid values)"},
 			{ID: "C10.R10", Floor: 2, Run: pointerAssertedFilters, Text: "filters the library recognises by asserting *T (CachedFilter, RelationFilter) are implemented by *T only (go/types: T itself does not implement ecs.Filter), so a T passed by value cannot slip past the guard against double registration"},
+			{ID: "C10.R11", Floor: 1, Run: cacheEntryMoves, Text: "moving cache entries keeps the id → position map exact (= C07.R14): unregistering twice keeps panicking"},
+			{ID: "C10.R12", Floor: 1, Run: zeroIDNotAbsence, Text: "the zero ID never stands for absence in a comparison: no ==/!= on an ID operand that may hold the zero default of a missing option (component id 0 is a real id)"},
 		},
 	})
 }
